@@ -11,7 +11,7 @@ import XrsVerif.Proofs.ILProxBlocks
   on `_distance` and the coordinate grids: the square of the external distance between two cells is the
   embedded `dist2` of the model.  Nothing else is assumed.
 -/
-namespace XrsVerif.IL
+namespace XrsVerif.IL.Px
 open XrsVerif XrsVerif.Prox
 variable {F : Type} [Fl F]
 set_option linter.unusedSectionVars false
@@ -245,4 +245,4 @@ theorem LineRel.congr {c : Cfg} {emb : Nat → F} {s r : State F} {m : LineSt} (
   ⟨e1 ▸ h.len_px, e1 ▸ h.len_py, e1 ▸ h.len_nx, e1 ▸ h.len_ny, e2 ▸ h.len_lp, h.mlen_pan, h.mlen_lp, h.mlen_nr,
    e1 ▸ h.pan, e1 ▸ h.nr, e2 ▸ h.lp, h.nrlp⟩
 
-end XrsVerif.IL
+end XrsVerif.IL.Px
